@@ -1,3 +1,3 @@
 #!/bin/bash
 # bq.sh <Rn> [property]: quick false-alarm listing for a benign variant kept under /tmp/s/b<Rn>
-cd /verif; ./bin/colvet -repo /tmp/s/b$1 -property ${2:-all} -keys 2>&1 | grep "^KEY\|cannot analyse" | sort | uniq -c | grep -v -f <(./bin/colvet -property ${2:-all} -keys 2>&1 | grep "^KEY" | sort -u | sed 's/[][\\.*^$]/\\&/g')
+cd /verif; ./bin/colvet -repo /tmp/s/b$1 -property ${2:-all} -keys 2>&1 | grep "^KEY\|cannot analyse" | sort | uniq -c | grep -v -f <(./bin/colvet -repo /tmp/s/base -property ${2:-all} -keys 2>&1 | grep "^KEY" | sort -u | sed 's/[][\\.*^$]/\\&/g')
